@@ -11,6 +11,8 @@ different items.  `isum f l` is the total of `f` over `l`.
 import Golib.Proof.C18Knap
 import Golib.Proof.C18Best
 import Golib.Proof.C18Top
+import Golib.Proof.C18SolvH2
+import Golib.Proof.C18CliquesTop
 
 namespace Golib.C18
 
@@ -38,6 +40,69 @@ theorem c18_knapsack_optimal {α : Type} (br : Option (List α → List α → B
 towards the newer list. -/
 example : knapsackGo (some fun _ _ => true) (fun x : Int × Int => x.1) (fun x => x.2) 5
     [(2, 3), (3, 4), (5, 7)] = some [(5, 7)] := by decide
+
+/-! ### FindDpSolvers
+
+`solversH` is the heap-level model (explicit buffers, `append`, the slice pool); `ord1`,
+`ord2` are the iteration orders of `range dp` / `range dpTmp` in each pass (any
+permutations), `br` the optional tie-breaker, `grow` the capacity chosen by `append` when
+it reallocates (arbitrary). -/
+
+/-- The pool never aliases: the run does not get stuck, in the final state (and, by the same
+invariant `NoAlias`, after every loop iteration) the cells of `dp`, the cells of `dpTmp`
+and the pooled slices name pairwise different allocated buffers, and the map read through
+the heap is exactly the map computed on plain values (`solversV`). -/
+theorem c18_pool_no_alias {α : Type} (br : Option (List α → List α → Bool)) (maxV : Int)
+    (allowOver : Bool) (grow : Nat → Nat) (vf : α → Int) (ord1 ord2 : Nat → List Int → List Int)
+    (hord2 : ∀ i l, (ord2 i l).Perm l) (items : List α) :
+    ∃ st, solversH br maxV allowOver grow vf ord1 ord2 items = some st ∧ NoAlias st ∧
+      readMap st.heap st.dp = some (solversV br maxV allowOver vf ord1 ord2 items) :=
+  solversH_spec br maxV allowOver grow vf ord1 ord2 hord2 items
+
+/-- Soundness, for every iteration order, tie-breaker and growth policy: the returned map
+has distinct keys, every stored selection is a sub-selection of the items (each item at
+most once) whose total is its key, and without `allowOverOnce` no key exceeds `maxValue`. -/
+theorem c18_solvers_sound {α : Type} (br : Option (List α → List α → Bool)) (maxV : Int)
+    (allowOver : Bool) (grow : Nat → Nat) (vf : α → Int) (ord1 ord2 : Nat → List Int → List Int)
+    (hord1 : ∀ i l, (ord1 i l).Perm l) (hord2 : ∀ i l, (ord2 i l).Perm l)
+    (items : List α) (hpos : ∀ x ∈ items, 0 < vf x) (hmax : 0 ≤ maxV) :
+    ∃ st m, solversH br maxV allowOver grow vf ord1 ord2 items = some st ∧
+      readMap st.heap st.dp = some m ∧ (keys m).Nodup ∧
+      (∀ e ∈ m, e.2.Sublist items ∧ isum vf e.2 = e.1) ∧
+      (allowOver = false → ∀ k ∈ keys m, k ≤ maxV) := by
+  obtain ⟨st, h1, _, h3⟩ := solversH_spec br maxV allowOver grow vf ord1 ord2 hord2 items
+  obtain ⟨a, b, _, d, _⟩ := solversV_spec br maxV allowOver vf ord1 ord2 hord1 hord2 items
+    (fun x hx => Int.le_of_lt (hpos x hx)) (fun _ => hpos)
+  exact ⟨st, _, h1, h3, a, b, fun hn k hk => by rcases d hn k hk with h | h <;> omega⟩
+
+/-- Completeness: every total `≤ maxValue` attained by some sub-selection is a key (so the
+keys `≤ maxValue` are exactly the attainable totals `≤ maxValue`), and with
+`allowOverOnce` the least attainable total above `maxValue` is a key as well. -/
+theorem c18_solvers_complete {α : Type} (br : Option (List α → List α → Bool)) (maxV : Int)
+    (allowOver : Bool) (grow : Nat → Nat) (vf : α → Int) (ord1 ord2 : Nat → List Int → List Int)
+    (hord1 : ∀ i l, (ord1 i l).Perm l) (hord2 : ∀ i l, (ord2 i l).Perm l)
+    (items : List α) (hpos : ∀ x ∈ items, 0 < vf x) :
+    ∃ st m, solversH br maxV allowOver grow vf ord1 ord2 items = some st ∧
+      readMap st.heap st.dp = some m ∧
+      (∀ t, t ≤ maxV → (t ∈ keys m ↔ Att vf items t)) ∧
+      (allowOver = true → ∀ t, Att vf items t → maxV < t →
+        (∀ a, Att vf items a → maxV < a → t ≤ a) → t ∈ keys m) := by
+  obtain ⟨st, h1, _, h3⟩ := solversH_spec br maxV allowOver grow vf ord1 ord2 hord2 items
+  obtain ⟨_, b, c, _, e⟩ := solversV_spec br maxV allowOver vf ord1 ord2 hord1 hord2 items
+    (fun x hx => Int.le_of_lt (hpos x hx)) (fun _ => hpos)
+  refine ⟨st, _, h1, h3, ?_, e⟩
+  intro t ht
+  constructor
+  · intro hk
+    obtain ⟨e', he', rfl⟩ := List.mem_map.mp hk
+    exact ⟨e'.2, (b e' he').1, (b e' he').2⟩
+  · intro ha; exact c t ha ht
+
+/-- Non-vacuity: values 2, 3, 3 with `maxValue = 4`, overshoot allowed, an accepting
+tie-breaker (so the pool is exercised), reversed iteration orders. -/
+example : (solversH (some fun _ _ => true) 4 true (fun n => n) (fun x : Int => x)
+      (fun _ l => l.reverse) (fun _ l => l.reverse) [2, 3, 3]).bind (fun st => readMap st.heap st.dp) =
+    some [(0, []), (2, [2]), (3, [3]), (5, [2, 3])] := by decide
 
 /-! ### Best / BestAllowMinOverflow -/
 
@@ -82,5 +147,40 @@ theorem c18_top_alias_safe {V : Type} (nb : V → V → Bool) (P : List V) :
 
 example : bkTop (fun a b : Nat => (a, b) ∈ [(0, 1), (1, 0), (1, 2), (2, 1)]) [2, 0, 1] =
     some ([[2, 1], [0, 1]], [2, 0, 1]) := by decide
+
+/-! ### Maximal cliques
+
+The graph: vertex list `P` (the keys of `g.Nodes` in map iteration order — any duplicate-free
+list), adjacency `nb v u = (u ∈ g.Nodes[v])`, simple (`nb v v = false`) and undirected
+(`nb a b = nb b a`).  `MaxClique nb P C`: all of `C` are vertices, pairwise adjacent, and
+every other vertex has a non-neighbour in `C`.  Cliques are compared as sets (`SameSet`). -/
+
+/-- The invariant of the recursion: if `R` is a clique of vertices, `R`, `P`, `X` are
+duplicate-free and pairwise disjoint and `P ∪ X` is the set of common neighbours of `R`
+(`BKPre`), then `BronKerbosch(R, P, X)` terminates within fuel `|P| + 1` and reports exactly
+the maximal cliques `C` with `R ⊆ C ⊆ R ∪ P`, each of the form `R ++ Q` with `Q` a
+duplicate-free list from `P`, no two equal as sets (`BKPost`). -/
+theorem c18_bk_invariant {V : Type} (nb : V → V → Bool) (U : List V) (irrefl : ∀ v, nb v v = false)
+    (symm : ∀ a b, nb a b = nb b a) (fuel : Nat) (R P X : List V) (hf : P.length < fuel)
+    (hpre : BKPre nb U R P X) :
+    ∃ out, bk nb fuel R P X = some out ∧ BKPost nb U R P out :=
+  bk_spec nb U irrefl symm fuel R P X hf hpre
+
+/-- `GetMaximalCliques` (the top-level call on the shared `P`/`X` array, for every map
+iteration order `P`) returns duplicate-free vertex lists that are maximal cliques, every
+maximal clique is among them, and no two of them are the same clique. -/
+theorem c18_cliques_exact {V : Type} (nb : V → V → Bool) (irrefl : ∀ v, nb v v = false)
+    (symm : ∀ a b, nb a b = nb b a) (P : List V) (hP : P.Nodup) :
+    ∃ out, maximalCliques nb P = some out ∧
+      (∀ o ∈ out, o.Nodup ∧ MaxClique nb P o) ∧
+      (∀ C, MaxClique nb P C → ∃ o ∈ out, SameSet o C) ∧
+      out.Pairwise (fun a b => ¬ SameSet a b) :=
+  maximalCliques_spec nb irrefl symm P hP
+
+/-- Non-vacuity: triangle 0-1-2 with pendant 3 at 2, two vertex orders. -/
+example : maximalCliques (fun a b : Nat => (a, b) ∈ [(0, 1), (1, 0), (1, 2), (2, 1), (0, 2), (2, 0), (2, 3), (3, 2)])
+      [0, 1, 2, 3] = some [[0, 1, 2], [2, 3]] ∧
+    maximalCliques (fun a b : Nat => (a, b) ∈ [(0, 1), (1, 0), (1, 2), (2, 1), (0, 2), (2, 0), (2, 3), (3, 2)])
+      [3, 2, 0, 1] = some [[3, 2], [2, 0, 1]] := by decide
 
 end Golib.C18
